@@ -61,9 +61,17 @@ Definition run_case (c : c14case) : string :=
   let nmmulti := match nm with
                  | Some w => let w' := multi_batch_update_nm Zr w y (map snd pubn) in sh (fst w') ++ ":" ++ sh (snd w')
                  | None => "none" end in
+  let nmsingle := match nm with
+                  | Some w0 => map (fun w => sh (fst w) ++ ":" ++ sh (snd w))
+                                 (rev (snd (fold_left (fun st vb =>
+                                    let '(vprev, acc) := st in
+                                    let '(vnew, b) := vb in
+                                    (vnew, single_update_nm Zr (hd w0 acc) y vprev vnew (fst (fst b)) (snd (fst b)) :: acc))
+                                  pubn (vn0, [w0]))))
+                  | None => ["none"] end in
   "vals=" ++ shl vals ++ " coeffs=" ++ join "/" (map (fun b => shl (snd b)) batches)
   ++ " seq=" ++ shl (rev seqw) ++ " multi=" ++ sh multi ++ " grouped=" ++ sh grouped
   ++ " single=" ++ shl (rev singles)
-  ++ " nvals=" ++ shl (map fst pubn) ++ " nm=" ++ join "," nmseq ++ " nmmulti=" ++ nmmulti.
+  ++ " nvals=" ++ shl (map fst pubn) ++ " nm=" ++ join "," nmseq ++ " nmmulti=" ++ nmmulti ++ " nmsingle=" ++ join "," nmsingle.
 
 Definition run_all (l : list c14case) : string := unlines (map run_case l).
